@@ -275,6 +275,114 @@ def r5_wire_id_tables(cx):
     cx.check("ids-distinct", len(allids) == 4, site_of(rf), "the four ids are distinct (%s)" % sorted(allids))
 
 
+def _id_switch(rf, within=None):
+    """The decoder's switch on the cipher id byte (u8, at least three listed values)."""
+    best = None
+    for sb in sorted(rf.cfg.reach if within is None else within):
+        tt = rf.blocks[sb]["term"]
+        if tt["k"] != "switch" or len(tt["values"]) < 3:
+            continue
+        l = op_local(tt["discr"])
+        if l is None or rf.local_ty(l).k != "int" or rf.local_ty(l).d["bits"] != 8:
+            continue
+        if set(tt["values"]) >= {1, 2, 3}:
+            best = sb
+    return best
+
+
+def r7_every_advertised_cipher_considered(cx):
+    """Both ends must negotiate over the same lists: the decoder may drop a list entry only because of its id byte
+    (plain marker / unknown cipher), never because of its position, the number of entries kept so far or its
+    speed.  Control-dependence rule: inside the list loop of InitMsg::read_from, every branch that decides
+    whether an entry is pushed (or whether the loop is left without an error) tests a value derived from the id
+    byte of that entry."""
+    from ..mirutil import forward_taint, loops_of, result_return_sites
+    prog = cx.prog
+    rf = A.method(prog, "InitMsg", "read_from")
+    cx.touch(rf)
+    cfg = rf.cfg
+    # the list local: the algorithm_speeds operand of the decoded Algorithms value
+    lists = set()
+    for (b2, bi2, s2) in aggregates(prog, "Algorithms"):
+        if b2.did == rf.did:
+            rv2 = s2["rv"]
+            r2 = op_root(rf, rv2["ops"][rv2["fields"].index("algorithm_speeds")])
+            if r2 is not None:
+                lists.add(r2["l"])
+    pushes = []
+    for ci, ct in rf.calls():
+        if callee_is(ct, "smallvec::SmallVec::push", "vec::Vec::push") and ct["args"]:
+            r = deep_root(rf, ct["args"][0])
+            if r is not None and r["l"] in lists:
+                pushes.append(ci)
+    cx.exact("list-pushes", len(pushes), 1, "pushes into the decoded cipher list")
+    if not pushes:
+        return
+    loops = [li for li in loops_of(rf) if all(p in li.blocks for p in pushes)]
+    loops.sort(key=lambda li: len(li.blocks))
+    cx.check("list-loop", bool(loops), site_of(rf, pushes[0]), "the push sits in a loop over the wire entries")
+    if not loops:
+        return
+    li = loops[0]
+    sb = _id_switch(rf, li.blocks)
+    cx.check("id-switch", sb is not None, site_of(rf), "the decoder switches on the id byte of each entry")
+    if sb is None:
+        return
+    id_local = op_local(rf.blocks[sb]["term"]["discr"])
+    # locals assigned under the control of the id switch (the Option<cipher>, the plain flag)
+    seeds = {id_local}
+    nsucc = len(cfg.succ[sb])
+    for b in cfg.reach:
+        ce = cfg.controlling_edges(b)
+        if any(e[1] == sb for e in ce):
+            for st in rf.blocks[b]["stmts"]:
+                if st["k"] == "assign":
+                    seeds.add(st["place"]["l"])
+            tt = rf.blocks[b]["term"]
+            if tt["k"] == "call":
+                seeds.add(tt["dest"]["l"])
+    derived = forward_taint(rf, seed_locals=sorted(seeds), mut_args=False)
+    err_defs = {bi for (k, bi, _i) in result_return_sites(rf) if k in ("err", "residual")}
+    ok_defs = {bi for (k, bi, _i) in result_return_sites(rf) if k not in ("err", "residual")}
+    pb = pushes[0]
+    exhaust = set(li.exhaust_exits)
+    bad = []
+    checked = 0
+    for s2 in sorted(li.blocks):
+        tt = rf.blocks[s2]["term"]
+        if tt["k"] != "switch":
+            continue
+        succs = cfg.succ[s2]
+        kinds = []
+        for k, t in enumerate(succs):
+            if (s2, t) in exhaust:
+                kinds.append("exhaust")
+                continue
+            reach = cfg.reachable_from([t], avoid_blocks=[pb])
+            if t == pb or (pb in cfg.reachable_from([t]) and li.header not in reach and not (reach & ok_defs)):
+                kinds.append("push")          # every way on passes the push
+            elif li.header in reach or t == li.header:
+                kinds.append("skip" if pb not in cfg.reachable_from([t], avoid_blocks=[li.header]) or True else "maybe")
+            elif reach & ok_defs:
+                kinds.append("leave")         # leaves the loop towards a normal result without pushing
+            else:
+                kinds.append("error")
+        if "exhaust" in kinds:
+            continue
+        # does this branch decide between pushing and not pushing (skip the entry / leave the loop normally)?
+        can_push = [k for k, t in enumerate(succs) if t == pb or pb in cfg.reachable_from([t], avoid_blocks=[li.header])]
+        cannot = [k for k, t in enumerate(succs) if not (t == pb or pb in cfg.reachable_from([t], avoid_blocks=[li.header])) and kinds[k] != "error"]
+        if not can_push or not cannot:
+            continue
+        checked += 1
+        dl = op_local(tt["discr"])
+        if dl is None or dl not in derived:
+            bad.append(s2)
+    cx.floor("push-deciding-branches", checked, 1, "branches inside the list loop that decide whether an entry is kept")
+    cx.check("entry-kept-by-id-only", not bad, site_of(rf, bad[0]) if bad else site_of(rf, pb),
+             "whether an advertised cipher is kept depends on its id byte only (not on its position, the entries kept so far or its speed): %d deciding branch(es), %d foreign" % (checked, len(bad)))
+
+
 def r6_failure_iff_no_common(cx):
     prog = cx.prog
     sel = _sel(prog)
@@ -307,6 +415,7 @@ RULES = [
     ("C06.R4", r4_lists_inside_signed_range, "cipher lists are written/read inside the signed range"),
     ("C06.R5", r5_wire_id_tables, "encoder and decoder cipher-id tables are mutual inverses; plain = 0"),
     ("C06.R6", r6_failure_iff_no_common, "failure iff the fold over common ciphers is empty"),
+    ("C06.R7", r7_every_advertised_cipher_considered, "the decoder keeps every advertised cipher: an entry is dropped because of its id byte only"),
 ]
 
 LEVEL_TEXT = ("Static sibling-agreement and dependence rules on MIR: plain mode needs both flags; one selection routine serves both handshake arms with "
